@@ -323,7 +323,7 @@ class Pervaporation:
             self.mixture.second_component.get_vaporisation_heat(
                 conditions.initial_feed_temperature
             )
-            / self.mixture.first_component.molecular_weight
+            / self.mixture.second_component.molecular_weight
             * 1000
         )
         if conditions.permeate_temperature is None:
@@ -341,17 +341,17 @@ class Pervaporation:
                 * 1000
             )
             condensation_heat_2 = (
-                self.mixture.first_component.get_vaporisation_heat(
+                self.mixture.second_component.get_vaporisation_heat(
                     conditions.permeate_temperature
                 )
-                / self.mixture.first_component.molecular_weight
+                / self.mixture.second_component.molecular_weight
                 * 1000
             )
             cooling_heat_1 = self.mixture.first_component.get_cooling_heat(
-                conditions.permeate_temperature, conditions.initial_feed_temperature
+                conditions.initial_feed_temperature, conditions.permeate_temperature
             )
             cooling_heat_2 = self.mixture.second_component.get_cooling_heat(
-                conditions.permeate_temperature, conditions.initial_feed_temperature
+                conditions.initial_feed_temperature, conditions.permeate_temperature
             )
 
         for step in range(len(time)):
@@ -1032,7 +1032,7 @@ class Pervaporation:
             self.mixture.second_component.get_vaporisation_heat(
                 conditions.initial_feed_temperature
             )
-            / self.mixture.first_component.molecular_weight
+            / self.mixture.second_component.molecular_weight
             * 1000
         )
         if conditions.permeate_temperature is None:
@@ -1050,17 +1050,17 @@ class Pervaporation:
                 * 1000
             )
             condensation_heat_2 = (
-                self.mixture.first_component.get_vaporisation_heat(
+                self.mixture.second_component.get_vaporisation_heat(
                     conditions.permeate_temperature
                 )
-                / self.mixture.first_component.molecular_weight
+                / self.mixture.second_component.molecular_weight
                 * 1000
             )
             cooling_heat_1 = self.mixture.first_component.get_cooling_heat(
-                conditions.permeate_temperature, conditions.initial_feed_temperature
+                conditions.initial_feed_temperature, conditions.permeate_temperature
             )
             cooling_heat_2 = self.mixture.second_component.get_cooling_heat(
-                conditions.permeate_temperature, conditions.initial_feed_temperature
+                conditions.initial_feed_temperature, conditions.permeate_temperature
             )
 
         for step in range(len(time)):
